@@ -307,6 +307,13 @@ def C15(ctx):
             cases.append(op_generate_ac(g.key(), g.msg(), "X", None, obj=obj, gen="selector", proj="class"))
         if not isinstance(obj, sm.EncryptionType):
             cases.append(op_encrypt(g.key(), g.msg(), "X", obj=obj, gen="selector", proj="class"))
+    for obj in gens.BAD_PADDINGS:
+        try:
+            mac.mac_iso9797_3(R.randbytes(8), R.randbytes(8), g.msg(), obj); r = "returned"
+        except Exception as e:  # noqa: BLE001
+            r = type(e).__name__
+        ctx.check("a MAC padding method other than 1 or 2 is refused with ValueError", r == "ValueError",
+                  f"mac_iso9797_3(…, padding={obj!r}) -> {r}")
     for p in range(-8, 12):
         for _ in range(3):
             cases.append(op_mac3(R.randbytes(8), R.randbytes(8), g.msg(), p, R.choice([None, 4]), gen="mac padding method -8..11", proj="class"))
